@@ -1,5 +1,50 @@
-// C18 unit driver: calls colvarvalue::dist2/dist2_grad/interpolate and, through real colvar objects,
-// colvar::dist2/dist2_lgrad/wrap (periodic distanceZ, distanceVec with and without forceNoPBC).
+// C18 unit driver: calls colvarvalue::dist2/dist2_grad/interpolate/apply_constraints/inner/norm2 and, through real colvar
+// objects of every kind (periodic distanceZ, distanceVec with and without forceNoPBC, dihedral, spinAngle, eulerPhi/Psi/Theta,
+// polarPhi/Theta, tilt, orientationAngle, distance, distanceDir, orientation, cartesian, distancePairs, a periodic scripted
+// variable), colvar::dist2/dist2_lgrad/dist2_rgrad/wrap; a real harmonic restraint's update_centers and a real OPES bias's
+// mergeKernels on a periodic variable.
+#include <string>
+#include <vector>
+#include <map>
+#include <sstream>
+#include <iostream>
+#include <fstream>
+#include <cmath>
+#include <cstdio>
+#include <cstdlib>
+#include <cstring>
+#include <algorithm>
+#include <functional>
+#include <thread>
+#include <mutex>
+#include <list>
+#include <memory>
+#include <iomanip>
+#include <limits>
+#include <set>
+#include <deque>
+#include <array>
+#include <unordered_map>
+#include <unordered_set>
+#include <type_traits>
+#include <numeric>
+#include <random>
+#include <chrono>
+#include <atomic>
+#include <condition_variable>
+#include <stdexcept>
+#include <iterator>
+#include <utility>
+#include <tuple>
+#define private public
+#define protected public
+#include "colvarmodule.h"
+#include "colvar.h"
+#include "colvarbias.h"
+#include "colvarbias_restraint.h"
+#include "colvarbias_opes.h"
+#undef private
+#undef protected
 #include "vsim.h"
 static double num(std::string const &s) { return strtod(s.c_str(), NULL); }
 static std::string H(double x) { return vs_hex(x); }
@@ -7,8 +52,11 @@ static std::string H(double x) { return vs_hex(x); }
 int main()
 {
   vsim_session S(&std::cout);
-  S.eng.resize(2);
+  S.eng.resize(4);
+  S.eng.temperature = 300.0;
   S.fresh();
+  int nbias = 0;
+  std::map<std::string, colvarbias_opes *> opes_cache;
   std::map<std::string, colvar *> cache;
   int ncv = 0;
   auto get_cv = [&](std::string const &key, std::string const &body) -> colvar * {
@@ -79,7 +127,7 @@ int main()
                           (pbc ? "" : "    forceNoPBC on\n") + "  }\n");
       if (!cv) { o << "noconfig\n"; continue; }
       colvarvalue x1(v3(), colvarvalue::type_3vector), x2(v3(), colvarvalue::type_3vector);
-      o << H(cv->dist2(x1, x2)) << " " << vs_hex(cv->dist2_lgrad(x1, x2)) << "\n";
+      o << H(cv->dist2(x1, x2)) << " " << vs_hex(cv->dist2_lgrad(x1, x2)) << " " << vs_hex(cv->dist2_rgrad(x1, x2)) << "\n";
     } else if (cmd == "ISC") {
       colvarvalue x1(nf()), x2(nf()); double l = nf();
       o << vs_hex(colvarvalue::interpolate(x1, x2, l)) << "\n";
@@ -88,12 +136,18 @@ int main()
       o << vs_hex(colvarvalue::interpolate(x1, x2, l)) << "\n";
     } else if (cmd == "IUV") {
       colvarvalue x1(v3(), colvarvalue::type_unit3vector), x2(v3(), colvarvalue::type_unit3vector); double l = nf();
-      o << vs_hex(colvarvalue::interpolate(x1, x2, l)) << "\n";
+      cvm::clear_error();
+      colvarvalue r = colvarvalue::interpolate(x1, x2, l);
+      o << vs_hex(r) << " " << H(cvm::get_error() ? 1.0 : 0.0) << "\n";
+      cvm::clear_error();
     } else if (cmd == "IQ") {
       double q[8]; for (int i = 0; i < 8; i++) q[i] = nf();
       double l = nf();
       colvarvalue x1(cvm::quaternion(q[0], q[1], q[2], q[3])), x2(cvm::quaternion(q[4], q[5], q[6], q[7]));
-      o << vs_hex(colvarvalue::interpolate(x1, x2, l)) << "\n";
+      cvm::clear_error();
+      colvarvalue r = colvarvalue::interpolate(x1, x2, l);
+      o << vs_hex(r) << " " << H(cvm::get_error() ? 1.0 : 0.0) << "\n";
+      cvm::clear_error();
     } else if (cmd == "IVEC") {
       int n = ni();
       cvm::vector1d<cvm::real> v1(n), v2(n);
@@ -102,6 +156,171 @@ int main()
       double l = nf();
       colvarvalue x1(v1, colvarvalue::type_vector), x2(v2, colvarvalue::type_vector);
       o << vs_hex(colvarvalue::interpolate(x1, x2, l)) << "\n";
+    } else if (cmd == "AC") {
+      // colvarvalue::apply_constraints
+      std::string t = a[p++];
+      if (t == "UV") {
+        colvarvalue x(v3(), colvarvalue::type_unit3vector); x.apply_constraints(); o << vs_hex(x) << "\n";
+      } else {
+        double q[4]; for (int i = 0; i < 4; i++) q[i] = nf();
+        colvarvalue x(cvm::quaternion(q[0], q[1], q[2], q[3])); x.apply_constraints(); o << vs_hex(x) << "\n";
+      }
+    } else if (cmd == "INN") {
+      // inner product (operator *) and norm2 of colvarvalues
+      std::string t = a[p++];
+      if (t == "UV" || t == "V3") {
+        colvarvalue::Type ty = (t == "UV") ? colvarvalue::type_unit3vector : colvarvalue::type_3vector;
+        colvarvalue x1(v3(), ty), x2(v3(), ty);
+        o << H(x1 * x2) << " " << H(x1.norm2()) << "\n";
+      } else if (t == "Q") {
+        double q[8]; for (int i = 0; i < 8; i++) q[i] = nf();
+        colvarvalue x1(cvm::quaternion(q[0], q[1], q[2], q[3])), x2(cvm::quaternion(q[4], q[5], q[6], q[7]));
+        o << H(x1 * x2) << " " << H(x1.norm2()) << "\n";
+      } else {
+        int n = ni();
+        cvm::vector1d<cvm::real> v1(n), v2(n);
+        for (int i = 0; i < n; i++) v1[i] = nf();
+        for (int i = 0; i < n; i++) v2[i] = nf();
+        colvarvalue x1(v1, colvarvalue::type_vector), x2(v2, colvarvalue::type_vector);
+        o << H(x1 * x2) << " " << H(x1.norm2()) << "\n";
+      }
+    } else if (cmd == "CD" || cmd == "CW") {
+      // a real single-component variable of the given kind: colvar::dist2, dist2_lgrad, dist2_rgrad (CD) or colvar::wrap (CW)
+      std::string kind = a[p++];
+      double wc = nf();
+      int n = ni();
+      std::string comp = kind, extra;
+      char wbuf[128]; snprintf(wbuf, sizeof(wbuf), "    wrapAround %.17g\n", wc);
+      std::string body;
+      std::string const ref4 = "    atoms { atomNumbers 1 2 3 4 }\n    refPositions (1, 0, 0) (0, 1, 0) (0, 0, 1) (-1, -1, -1)\n";
+      bool periodic = false;
+      if (kind == "distance") body = "    group1 { atomNumbers 1 }\n    group2 { atomNumbers 2 }\n";
+      else if (kind == "dihedral" || kind == "dihedralCoeff2" || kind == "dihedralSum") {
+        // dihedralCoeff2: one periodic component with coefficient 2 (not homogeneous: the variable is a plain scalar);
+        // dihedralSum: two periodic components with coefficient 1 (homogeneous: delegates to the first component)
+        comp = "dihedral";
+        body = "    group1 { atomNumbers 1 }\n    group2 { atomNumbers 2 }\n    group3 { atomNumbers 3 }\n    group4 { atomNumbers 4 }\n"; periodic = true;
+        if (kind == "dihedralCoeff2") body += "    componentCoeff 2.0\n";
+      }
+      else if (kind == "spinAngle" || kind == "eulerPhi" || kind == "eulerPsi") { body = ref4; periodic = true; }
+      else if (kind == "eulerTheta" || kind == "tilt" || kind == "orientationAngle" || kind == "orientation") body = ref4;
+      else if (kind == "polarPhi") { body = "    atoms { atomNumbers 1 }\n"; periodic = true; }
+      else if (kind == "polarTheta") body = "    atoms { atomNumbers 1 }\n";
+      else if (kind == "distanceDir") body = "    group1 { atomNumbers 1 }\n    group2 { atomNumbers 2 }\n";
+      else if (kind == "cartesian") body = "    atoms { atomNumbers 1 2 }\n";
+      else if (kind == "distancePairs") body = "    group1 { atomNumbers 1 2 }\n    group2 { atomNumbers 3 4 }\n";
+      else if (kind.compare(0, 9, "scripted:") == 0) {
+        // periodic scripted variable: "scripted:<period>"; the component is a plain distanceZ
+        double P = num(kind.substr(9));
+        comp = "distanceZ";
+        body = "    main { atomNumbers 1 }\n    ref { dummyAtom (0,0,0) }\n    axis (0,0,1)\n";
+        char pb[256]; snprintf(pb, sizeof(pb), "  scriptedFunction c18fn\n  period %.17g\n  wrapAround %.17g\n", P, wc);
+        extra = pb;
+      } else { o << "?\n"; continue; }
+      if (periodic) body += wbuf;
+      char kb[256]; snprintf(kb, sizeof(kb), "cd %s %.17g", kind.c_str(), wc);
+      std::string cvconf = extra + "  " + comp + " {\n" + body + "  }\n";
+      if (kind == "dihedralSum") cvconf += "  " + comp + " {\n" + body + "  }\n";
+      colvar *cv = get_cv(kb, cvconf);
+      if (!cv) { o << "noconfig\n"; continue; }
+      auto rd = [&](colvarvalue const &proto) {
+        colvarvalue x(proto);
+        if (x.type() == colvarvalue::type_scalar) x.real_value = nf();
+        else if (x.type() == colvarvalue::type_unit3vector || x.type() == colvarvalue::type_3vector) x.rvector_value = v3();
+        else if (x.type() == colvarvalue::type_quaternion) { double q0 = nf(), q1 = nf(), q2 = nf(), q3 = nf(); x.quaternion_value = cvm::quaternion(q0, q1, q2, q3); }
+        else { for (int i = 0; i < n; i++) x.vector1d_value[i] = nf(); }
+        return x;
+      };
+      colvarvalue proto(cv->value());
+      if (proto.type() == colvarvalue::type_vector && int(proto.size()) != n) { o << "badsize " << proto.size() << "\n"; continue; }
+      if (cmd == "CD") {
+        colvarvalue x1 = rd(proto), x2 = rd(proto);
+        o << H(cv->dist2(x1, x2)) << " " << vs_hex(cv->dist2_lgrad(x1, x2)) << " " << vs_hex(cv->dist2_rgrad(x1, x2)) << "\n";
+      } else {
+        colvarvalue x = rd(proto);
+        cv->wrap(x);
+        o << vs_hex(x) << "\n";
+      }
+    } else if (cmd == "MR") {
+      // moving harmonic restraint on a periodic distanceZ: MR P c x0 x1 lambda...  -> the centre after update_centers(lambda), for each lambda
+      double P = nf(), c = nf(), x0 = nf(), x1 = nf();
+      char buf[256]; snprintf(buf, sizeof(buf), "%.17g %.17g", P, c);
+      char body[1024];
+      snprintf(body, sizeof(body), "  distanceZ {\n    main { atomNumbers 1 }\n    ref { dummyAtom (0,0,0) }\n    axis (0,0,1)\n    period %.17g\n    wrapAround %.17g\n  }\n", P, c);
+      colvar *cv = get_cv(std::string("per ") + buf, body);
+      if (!cv) { o << "noconfig\n"; continue; }
+      std::string bname = "mr" + cvm::to_str(nbias++);
+      char bconf[1024];
+      snprintf(bconf, sizeof(bconf), "harmonic {\n  name %s\n  colvars %s\n  forceConstant 1.0\n  centers %.17g\n  targetCenters %.17g\n  targetNumSteps 100\n}\n",
+               bname.c_str(), cv->name.c_str(), x0, x1);
+      cvm::clear_error();
+      S.proxy->colvars->read_config_string(bconf);
+      colvarbias *b = cvm::bias_by_name(bname);
+      colvarbias_restraint_centers_moving *mb = dynamic_cast<colvarbias_restraint_centers_moving *>(b);
+      if (!mb || cvm::get_error()) { o << "nobias\n"; cvm::clear_error(); if (b) delete b; continue; }
+      std::string out;
+      while (p < a.size()) { double l = nf(); mb->update_centers(l); out += " " + vs_hex(mb->colvar_centers[0]); }
+      o << out.substr(1) << "\n";
+      delete b;
+      cvm::clear_error();
+    } else if (cmd == "OM") {
+      // OPES kernel merge on a periodic distanceZ: OM P c h1 k1 s1 h2 k2 s2 -> merged centre, sigma, height
+      double P = nf(), c = nf();
+      char buf[256]; snprintf(buf, sizeof(buf), "%.17g %.17g", P, c);
+      char body[1024];
+      snprintf(body, sizeof(body), "  distanceZ {\n    main { atomNumbers 1 }\n    ref { dummyAtom (0,0,0) }\n    axis (0,0,1)\n    period %.17g\n    wrapAround %.17g\n  }\n", P, c);
+      colvar *cv = get_cv(std::string("per ") + buf, body);
+      if (!cv) { o << "noconfig\n"; continue; }
+      colvarbias_opes *ob = NULL;
+      if (opes_cache.count(buf)) ob = opes_cache[buf];
+      else {
+        std::string bname = "om" + cvm::to_str(nbias++);
+        char bconf[1024];
+        snprintf(bconf, sizeof(bconf), "opes_metad {\n  name %s\n  colvars %s\n  barrier 10.0\n  newHillFrequency 100\n  gaussianSigma 0.1\n}\n", bname.c_str(), cv->name.c_str());
+        cvm::clear_error();
+        S.proxy->colvars->read_config_string(bconf);
+        ob = dynamic_cast<colvarbias_opes *>(cvm::bias_by_name(bname));
+        if (cvm::get_error()) ob = NULL;
+        cvm::clear_error();
+        opes_cache[buf] = ob;
+      }
+      if (!ob) { o << "nobias\n"; continue; }
+      double h1 = nf(), k1 = nf(), s1 = nf(), h2 = nf(), k2 = nf(), s2 = nf();
+      colvarbias_opes::kernel K1(h1, std::vector<cvm::real>(1, k1), std::vector<cvm::real>(1, s1));
+      colvarbias_opes::kernel K2(h2, std::vector<cvm::real>(1, k2), std::vector<cvm::real>(1, s2));
+      ob->mergeKernels(K1, K2);
+      o << H(K1.m_center[0]) << " " << H(K1.m_height) << "\n";
+    } else if (cmd == "OBJ") {
+      // history on ONE fresh periodic variable: initial period/centre, then M P c (modifycvcs) | W x (colvar::wrap)
+      // | D x1 x2 (colvar::dist2 + dist2_lgrad) | X x1 x2 (wrap both, then dist2 + dist2_lgrad), in the order given
+      double P0 = nf(), c0 = nf();
+      char body[1024];
+      snprintf(body, sizeof(body), "  distanceZ {\n    main { atomNumbers 1 }\n    ref { dummyAtom (0,0,0) }\n    axis (0,0,1)\n    period %.17g\n    wrapAround %.17g\n  }\n", P0, c0);
+      colvar *cv = get_cv("obj " + cvm::to_str(ncv), body);   // never cached: the key contains the counter
+      if (!cv) { o << "noconfig\n"; continue; }
+      std::string out;
+      while (p < a.size()) {
+        std::string op = a[p++];
+        if (op == "M") {
+          double P = nf(), c = nf();
+          char conf[256]; snprintf(conf, sizeof(conf), "period %.17g\nwrapAround %.17g\n", P, c);
+          std::vector<std::string> confs(1, std::string(conf));
+          cvm::clear_error();
+          if (cv->update_cvc_config(confs) != COLVARS_OK) out += " moderr";
+          cvm::clear_error();
+        } else if (op == "W") {
+          colvarvalue x(nf()); cv->wrap(x); out += " " + vs_hex(x);
+        } else if (op == "D") {
+          colvarvalue x1(nf()), x2(nf());
+          out += " " + H(cv->dist2(x1, x2)) + " " + vs_hex(cv->dist2_lgrad(x1, x2));
+        } else if (op == "X") {
+          // what a bias keeping wrapped centres does: wrap both values with the object, then take the distance
+          colvarvalue x1(nf()), x2(nf());
+          cv->wrap(x1); cv->wrap(x2);
+          out += " " + H(cv->dist2(x1, x2)) + " " + vs_hex(cv->dist2_lgrad(x1, x2));
+        }
+      }
+      o << (out.size() ? out.substr(1) : std::string("-")) << "\n";
     } else {
       o << "?\n";
     }
